@@ -52,6 +52,9 @@ def main():
     r = sh(f"git -C /repo worktree add --detach {wt} HEAD")
     assert r.returncode == 0, r.stderr
     ver = dict(meta.get("verified", {}))
+    if os.path.exists(os.path.join(dst, "meta.json")):
+        ver = dict(json.load(open(os.path.join(dst, "meta.json"))).get(
+            "verified", ver))
     try:
         env = f"PYTHONPATH={wt} PYTHONDONTWRITEBYTECODE=1"
         if not args.skip_verify:
